@@ -459,6 +459,7 @@ func runLogProp(cfg logRunCfg) func(seed int64, tier string, outDir string) *res
 				runMixedSortScenarios(xr, na/2+1, st, xf)
 			} else if cfg.prop == "C17" {
 				runPinFaultScenarios(xr, na, st, xf)
+				runPartialJoinScenarios(xr, na, st, xf)
 			} else if cfg.prop != "C06" {
 				runAliasScenarios(xr, na, st, xf)
 				runPartialJoinScenarios(xr, na, st, xf)
